@@ -92,6 +92,10 @@ MUTANTS: List[Tuple[str, List[str], List[Tuple[str, str, str]], str]] = [
                                                     ("taskiq/receiver/params_parser.py", "    argnum = -1\n", "    argnum = -1\n    prev_annot = None\n"),
                                                     ("taskiq/receiver/params_parser.py", "        value = None\n        logger.debug(\"Trying to parse", "        value = None\n        prev_annot, _cur = (locals().get('_last'), annot)\n        _last = annot\n        logger.debug(\"Trying to parse")],
      "keyword arguments parsed with the previous parameter's annotation"),
+    ("revert-F18", ["C08"], [("taskiq/receiver/params_parser.py", "        if param.kind != param.KEYWORD_ONLY and argnum < len(message.args):", "        if argnum < len(message.args):")],
+     "reverts part of fix 8f08428: keyword-only parameters behind *args are read from the positional arguments again"),
+    ("variadic-first-only", ["C08"], [("taskiq/receiver/params_parser.py", "    keys: Any = range(argnum, len(message.args))", "    keys: Any = range(argnum, min(argnum + 1, len(message.args)))")],
+     "annotation of *args applied to the first collected value only"),
     ("revert-argnum-fix", ["C08"], [("taskiq/receiver/params_parser.py", "        argnum += 1\n        # If parameter doesn't have an annotation.\n        annot = type_hints.get(param_name)\n        if annot is None:\n            continue\n", "        # If parameter doesn't have an annotation.\n        annot = type_hints.get(param_name)\n        if annot is None:\n            continue\n        argnum += 1\n")],
      "revert of the F1 fix"),
     ("no-prepare-kwargs", ["C08"], [("taskiq/kicker.py", "            formatted_kwargs[kwarg_name] = self._prepare_arg(kwarg_val)", "            formatted_kwargs[kwarg_name] = kwarg_val")],
